@@ -10,7 +10,8 @@ from vlib import *
 RULE = ('T in 1..4 (quick) / 1..8 (thorough); h, p, c, K, gamma, demand mean/sd each drawn as scalar, length-T or length-(T+1) '
         'list, stationary or period-varying; K = 0 in ~35% of the cases; gamma in {1, 0.9, 0.95}; terminal costs zero / equal / '
         'random; demand = normal mean 3..12, sd 1..3, or DemandSource objects of type N, P, UD, CD, UC, NB (one for all periods or '
-        'one per period); initial inventory level integer / fractional / occasionally outside the grid; modes: optimisation on the '
+        'one per period, incl. lists whose consecutive periods have bit-identical mean and sd but different distributions: X next to '
+        'the normal with the moments of X, mirror-image custom-discrete pmfs); initial inventory level integer / fractional / occasionally outside the grid; modes: optimisation on the '
         'default grid (incl. range-doubling restarts, forced by large K in ~10%), optimisation on a user x_range, evaluation of a '
         'user policy matrix (base-stock, (s,S), never-order); plus a malformed stream (ValueError cases). Every optimisation case is '
         'also fed back in evaluation mode. non-trivial = T >= 2 and (some s_t < S_t or the S_t are not all equal); '
@@ -41,6 +42,46 @@ def gen_source(rng, small=False):
     return dict(type='NB', n=rng.randint(2, 8), p=rng.choice([0.4, 0.5, 0.6]))
 
 
+def _moments(spec):
+    """(mean, sd) exactly as finite_horizon_dp obtains them from a DemandSource"""
+    ds = mk_source(spec)
+    return (float(ds.mean or ds.demand_distribution.mean()), float(ds.standard_deviation or ds.demand_distribution.std()))
+
+
+def gen_matched_pair(rng, small=False):
+    """two DIFFERENT demand sources with bit-identical mean and standard deviation (moment-matched): a distribution next to
+    the normal with its moments, or two custom-discrete pmfs that are mirror images of each other"""
+    k = rng.choice(['P-N', 'UD-N', 'UC-N', 'CD-N', 'CD-mirror', 'CD-mirror'])
+    if k == 'CD-mirror':
+        while True:
+            top = rng.randint(3, 6); w = [rng.randint(0, 6) for _ in range(top + 1)]
+            w[0] = max(w[0], 1); w[-1] = max(w[-1], 1)
+            tot = sum(w)
+            if tot not in (8, 16, 32) or w == w[::-1]: continue          # dyadic probabilities: moments are exact in floats
+            mu2 = Fraction(2 * sum(i * x for i, x in enumerate(w)), tot)
+            if mu2.denominator != 1: continue
+            sh = int(mu2) - top                                           # mirror image about the mean: x -> 2 mu - x
+            if sh < 0: w = w[::-1]; sh = -sh
+            pts = [i for i in range(top + 1) if w[i]]
+            a = dict(type='CD', demand_list=pts, probabilities=[w[i] / tot for i in pts])
+            mp = sorted((sh + top - i, w[i] / tot) for i in pts)
+            b = dict(type='CD', demand_list=[x for x, _ in mp], probabilities=[q for _, q in mp])
+            if _moments(a) == _moments(b) and _moments(a)[1] > 0: return a, b
+    while True:
+        kind = k.split('-')[0]
+        if kind == 'P': a = dict(type='P', mean=float(rng.choice([4, 9] if small else [4, 9, 6.25, 12.25])))
+        elif kind == 'UD':
+            lo = rng.randint(0, 5); a = dict(type='UD', lo=lo, hi=lo + rng.randint(3, 6 if small else 10))
+        elif kind == 'UC':
+            lo = _r(rng, 0, 5, 2); a = dict(type='UC', lo=lo, hi=lo + _r(rng, 3, 6 if small else 10, 2))
+        else: a = gen_source(rng, small); 
+        if a['type'] != kind and kind == 'CD': continue
+        m, sd = _moments(a)
+        if sd <= 0: continue
+        b = dict(type='N', mean=m, standard_deviation=sd)
+        if _moments(b) == (m, sd): return a, b
+
+
 def gen_case(rng, tmax, malformed_rate=0.08):
     T = rng.randint(1, tmax) if rng.random() < 0.93 else 1
     def arg(draw, stationary_p=0.5):
@@ -62,14 +103,22 @@ def gen_case(rng, tmax, malformed_rate=0.08):
     if tm < 0.3: c['hT'], c['pT'] = 0.0, 0.0
     elif tm < 0.6: c['hT'], c['pT'] = _r(rng, 0.25, 3), _r(rng, 2, 20)
     else: c['hT'], c['pT'] = _r(rng, 0, 3), _r(rng, 0, 20)
-    if rng.random() < 0.55:
+    dk = rng.random()
+    if dk < 0.48:
         c['demand'] = dict(kind='normal', mean=arg(lambda: _r(rng, 3, 8 if small else 12, 2), 0.6), sd=arg(lambda: _r(rng, 1, 1.5 if small else 3, 2), 0.7))
+    elif dk < 0.64 or (T == 1 and dk >= 0.78):
+        c['demand'] = dict(kind='source', sources=['scalar', gen_source(rng, small)])
     else:
-        if rng.random() < 0.5: c['demand'] = dict(kind='source', sources=['scalar', gen_source(rng, small)])
+        shape = rng.choice(['T', 'T1'])
+        if dk < 0.78: l = [gen_source(rng, small) for _ in range(T)]
         else:
-            shape = rng.choice(['T', 'T1'])
-            l = [gen_source(rng, small) for _ in range(T)]
-            c['demand'] = dict(kind='source', sources=['list', ([None] + l) if shape == 'T1' else l])
+            # period-varying list in which consecutive periods have the SAME mean and sd but a different distribution
+            a, b = gen_matched_pair(rng, small)
+            while True:
+                l = [rng.choice([a, b]) for _ in range(T)]
+                if any(l[i] != l[i + 1] for i in range(T - 1)): break
+            c['matched'] = True
+        c['demand'] = dict(kind='source', sources=['list', ([None] + l) if shape == 'T1' else l])
     if rng.random() < 0.15: c['d_spread'] = rng.choice([3, 5])
     if rng.random() < 0.15: c['s_spread'] = rng.choice([3, 4, 6])
     if small: c['d_spread'] = 3; c['s_spread'] = rng.choice([3, 4])
@@ -84,7 +133,7 @@ def gen_case(rng, tmax, malformed_rate=0.08):
                  gamma=sc(rng.choice([1.0, 0.9, 0.95])), mode='opt', d_spread=3 if small else 4, s_spread=4 if small else 5)
         c['demand'] = dict(kind='normal', mean=sc(_r(rng, 6, 8, 2) if small else _r(rng, 8, 12, 2)), sd=sc(_r(rng, 1, 1.5 if small else 2, 2)))
         if norm_list(c['gamma'], T)[T] != 1.0: c['hT'], c['pT'] = 0.0, 0.0
-        c['myopic_friendly'] = True
+        c['myopic_friendly'] = True; c.pop('matched', None)
     if c['mode'] != 'opt':
         lo = -rng.randint(8, 20 if small else 30); c['xr'] = [lo, rng.randint(25, 35 if small else 60)]
         if c['mode'] == 'optgrid' and rng.random() < 0.7: c['xr'][1] = rng.randint(4, 14)     # too small: forces the range doubling
@@ -550,6 +599,7 @@ def explore(chk, n, tmax, do_model=True, malformed_rate=0.08):
         for k in ('h', 'p', 'c', 'K', 'gamma'):
             chk.count('shape_%s=%s' % (k, c[k][0] if c[k][0] == 'scalar' else ('T1' if len(c[k][1]) == T + 1 else 'T')))
         chk.count('K=0' if all(v == 0 for v in norm_list(c['K'], T)[1:]) else 'K>0')
+        if c.get('matched'): chk.count('demand_list=moment-matched-neighbours')
         if not r['ok'] and r['kind'] == 'IndexError' and c['IL'] != 0.0:
             # initial_inventory_level outside the grid: cost_matrix[1, int(IL) - x_min] does not exist; the property speaks about the grid only
             c0 = dict(c, IL=0.0); r0 = call_impl(impl_kwargs(c0))
